@@ -69,6 +69,9 @@ def strategy(tier):
         if kind == "create":
             case["stype"] = draw(st.sampled_from(["Nominal", "GradJac", "KKT"]))
             case["via"] = draw(st.sampled_from(["create_scaling", "transformation_double", "transformation_single"]))
+            # variable bounds relative to the scaling point (which need not satisfy them: its evaluation is exempt
+            # from the bounds, see C05): None = unbounded problem
+            case["bounds"] = draw(st.one_of(st.none(), st.lists(st.sampled_from(["free", "inside", "below", "above"]), min_size=n, max_size=n)))
         return case
 
     return _s()
@@ -223,25 +226,42 @@ def _check_create(case, labels):
     xs = np.array(case["xs"], dtype=float)
     conv = lambda D: _to_sparse(D, case["fmt"], case.get("style"))  # noqa: E731
 
+    lb, ub = np.full(n, -np.inf), np.full(n, np.inf)
+    for j, k in enumerate(case.get("bounds") or []):
+        w = 1.0 + abs(xs[j])
+        if k == "inside":
+            lb[j], ub[j] = xs[j] - w, xs[j] + w
+        elif k == "below":  # the box lies below the scaling point
+            ub[j] = xs[j] - w
+        elif k == "above":
+            lb[j] = xs[j] + w
+    if case.get("bounds"):
+        labels.append("bounded:" + ("scaling_point_outside" if any(k in ("below", "above") for k in case["bounds"]) else "scaling_point_inside"))
+
+    def at_xs(x):
+        return np.array_equal(np.asarray(x, dtype=float), xs)
+
     class P(Problem):
+        """the data are the derivatives AT the scaling point; anywhere else the functions are different"""
+
         def __init__(self):
             kw = dict(cons_lb=np.zeros(m), cons_ub=np.zeros(m)) if m else {}
-            super().__init__(np.full(n, -np.inf), np.full(n, np.inf), **kw)
+            super().__init__(lb, ub, **kw)
 
         def obj(self, x):
             return 0.0
 
         def obj_grad(self, x):
-            return g.copy()
+            return g.copy() if at_xs(x) else 8.0 * g + 3.0
 
         def cons(self, x):
-            return cs.copy()
+            return cs.copy() if at_xs(x) else 8.0 * cs + 3.0
 
         def cons_jac(self, x):
-            return conv(J)
+            return conv(J if at_xs(x) else 8.0 * J)
 
         def lag_hess(self, x, y):
-            return conv(H)
+            return conv(H if at_xs(x) else 8.0 * H)
 
     stype = case["stype"]
     labels.append(f"create:{stype}")
